@@ -39,6 +39,12 @@ type bgProc struct {
 	killed  bool
 }
 
+type queued struct {
+	text string
+	what string
+	ap   func()
+}
+
 type outcome int
 
 const (
@@ -73,6 +79,8 @@ type model struct {
 	r            *rand.Rand
 	nameCtr      int
 	noMoreBg     bool
+	queue        []queued
+	fromQueue    bool
 	tpls         []string
 }
 
@@ -248,6 +256,39 @@ func (m *model) pattern(text string, wantMatch bool) (string, bool) {
 
 // gen produces the next line: want=true asks for a line that must succeed, false for one that must fail.
 func (m *model) gen(wantOK bool) (text string, out outcome, what string, apply func()) {
+	m.fromQueue = false
+	if wantOK && len(m.queue) > 0 {
+		qd := m.queue[0]
+		m.queue = m.queue[1:]
+		m.fromQueue = true
+		return qd.text, oOK, qd.what, qd.ap
+	}
+	if !wantOK {
+		m.queue = nil // a failing line interrupts a prepared sequence
+		// prefer a wait that must fail when a job with an unexpected status is outstanding
+		if !m.noMoreBg && m.r.Intn(2) == 0 {
+			allDone := true
+			bad := false
+			for _, b := range m.bg {
+				if b.hang && !b.killed {
+					allDone = false
+				}
+				if (!b.hang && b.code == 0) == b.neg {
+					bad = true
+				}
+			}
+			if allDone && bad && len(m.bg) > 0 {
+				return "wait", oFail, "wait", func() { m.bg = nil; m.stdoutKnown = false; m.bgBroken() }
+			}
+		}
+	}
+	if wantOK && len(m.bg) == 0 && !m.noMoreBg && m.r.Intn(12) == 0 {
+		m.prepare()
+		if len(m.queue) > 0 {
+			t, o, w, a := m.gen(true)
+			return t, o, w, a
+		}
+	}
 retry:
 	for tries := 0; tries < 60; tries++ {
 		k := m.r.Intn(31)
@@ -398,6 +439,13 @@ retry:
 				}
 				t = "rm " + m.spell(victim)
 				ap = func() { m.removeAll(victim) }
+				if len(files) > 1 && m.r.Intn(2) == 0 {
+					second := m.pick(files)
+					if second != victim && !strings.HasPrefix(second, victim+"/") {
+						t += " " + m.spell(second)
+						ap = func() { m.removeAll(victim); m.removeAll(second) }
+					}
+				}
 			} else {
 				t, o = m.pick([]string{"! rm x", "rm"}), oFail
 			}
@@ -704,7 +752,11 @@ retry:
 			} else if wantMatch && m.r.Intn(3) == 0 {
 				_, n := matches(p, text)
 				if !wantOK {
-					n++
+					if n > 1 && m.r.Intn(2) == 0 {
+						n--
+					} else {
+						n++
+					}
 				}
 				t = fmt.Sprintf("%s -count=%d %s", which, n, q(p))
 			}
@@ -1028,6 +1080,60 @@ retry:
 		return "env FALLBACK=1", oOK, "env", func() { m.env["FALLBACK"] = "1" }
 	}
 	return "frobnicate", oFail, "unknown", nil
+}
+
+// prepare queues a multi-line sequence whose lines all must succeed.
+func (m *model) prepare() {
+	files := m.files()
+	switch m.r.Intn(3) {
+	case 0: // stdin is consumed by exactly one exec
+		if len(files) == 0 {
+			return
+		}
+		f := m.pick(files)
+		data := m.fs[f].data
+		if data == "" {
+			return
+		}
+		sp := m.spell(f)
+		m.queue = append(m.queue,
+			queued{"stdin " + sp, "stdin", func() { m.stdin = data }},
+			queued{"exec vhelper cat", "exec", func() { m.stdout, m.stderr, m.stdin, m.stdoutKnown = data, "", "", true }},
+			queued{"cmp stdout " + sp, "cmp-stdout", nil},
+			queued{"exec vhelper cat", "exec", func() { m.stdout, m.stderr, m.stdin, m.stdoutKnown = "", "", "", true }},
+			queued{"! stdout .", "match", nil},
+		)
+	case 1: // outputs of background jobs are concatenated in start order
+		a, b := "first"+fmt.Sprint(m.r.Intn(100)), "second"+fmt.Sprint(m.r.Intn(100))
+		m.queue = append(m.queue,
+			queued{"exec vhelper exit 0 " + a + " &", "bg-start", func() { m.startBg(bgProc{out: a + "\n"}) }},
+			queued{"exec vhelper exit 0 " + b + " &", "bg-start", func() { m.startBg(bgProc{out: b + "\n"}) }},
+			queued{"wait", "wait", func() { m.stdout, m.stderr, m.stdoutKnown, m.stdin = a+"\n"+b+"\n", "", true, ""; m.bg = nil }},
+			queued{"stdout '^" + a + "\\n" + b + "$'", "match", nil},
+			queued{"! stderr .", "match", nil},
+		)
+	default: // negated background job that fails, named wait
+		m.nameCtr++
+		n := fmt.Sprintf("neg%d", m.nameCtr)
+		m.queue = append(m.queue,
+			queued{"! exec vhelper exit 3 oops &" + n + "&", "bg-start", func() { m.startBg(bgProc{name: n, neg: true, code: 3, out: "oops\n"}) }},
+			queued{"wait " + n, "wait", func() {
+				m.stdout, m.stderr, m.stdoutKnown = "oops\n", "", true
+				for i := range m.bg {
+					if m.bg[i].name == n {
+						m.bg = append(m.bg[:i:i], m.bg[i+1:]...)
+						break
+					}
+				}
+			}},
+			queued{"stdout oops", "match", nil},
+		)
+	}
+}
+
+func (m *model) startBg(b bgProc) {
+	m.bg = append(m.bg, b)
+	m.stdout, m.stderr, m.stdoutKnown, m.stdin = "", "", true, ""
 }
 
 // bgBroken marks that background bookkeeping after a failed wait is not modelled:
